@@ -556,7 +556,14 @@ pub fn replay(v: &serde_json::Value) -> Result<Option<String>, String> {
         return Ok(fixed_buffer_batch(&[c])?.into_iter().next().and_then(|o| o.violation));
     }
     let b = make_bases()?;
-    Ok(eval(&b, &c).violation)
+    if let Some(m) = eval(&b, &c).violation {
+        return Ok(Some(m));
+    }
+    // a case found by the block that runs under a logger accepting every level only fails there
+    crate::session::set_logging(true);
+    let r = eval(&b, &c).violation.map(|m| format!("(logger at trace level) {}", m));
+    crate::session::set_logging(false);
+    Ok(r)
 }
 
 fn fail(c: &DirCase, m: String) -> Failure {
@@ -564,7 +571,7 @@ fn fail(c: &DirCase, m: String) -> Failure {
 }
 
 pub fn run(tier: Tier, seed: u64) -> i32 {
-    let rule = "directory regions (fixed FAT12 root and a two-cluster chained directory) filled with generated 32-byte slots, cluster fields forced valid: block A = every order/last-flag/checksum pattern of runs of 1..3 long-name slots over 29 interesting order bytes (incl. index 0 with only flag / undefined bits) x follower (short entry, deleted slot, label, end marker, second run, directory); block B = every value of each of the 32 bytes of each slot of a valid two-slot run and of its short entry, and every checksum value of the run x lead byte 0x05 / 0xE5 / 0x85 / a letter of the short entry; block C = random slot soup (valid runs with one damaged byte, 19-21 slot runs of 245..262 units with and without terminator, BMP-only or with surrogate pairs / lone surrogates, valid runs whose first on-disk slot got another order byte (deleted mark, 0x05, index off by one ...), runs numbered 21..31 with padding-only upper slots, garbage long-name slots incl. attr 0x1F/0x2F/0x3F, arbitrary short slots, deleted, labels, end markers); oracle = iteration and every accessor + Debug terminate without panic within a device-call budget, names <= 255 units, and the listing (entries, short names, long names) equals refdec's backwards run parser under at least one reading of the undefined bits; block D = the order patterns of 1..3 slots and the slot soup through the build with the fixed long-name buffer, listing compared with the default build's (no crash, same entries); non-trivial = region with a long-name slot whose run is broken; distinct by hash of the region";
+    let rule = "directory regions (fixed FAT12 root and a two-cluster chained directory) filled with generated 32-byte slots, cluster fields forced valid: block A = every order/last-flag/checksum pattern of runs of 1..3 long-name slots over 29 interesting order bytes (incl. index 0 with only flag / undefined bits) x follower (short entry, deleted slot, label, end marker, second run, directory); block B = every value of each of the 32 bytes of each slot of a valid two-slot run and of its short entry, and every checksum value of the run x lead byte 0x05 / 0xE5 / 0x85 / a letter of the short entry; block C = random slot soup (valid runs with one damaged byte, 19-21 slot runs of 245..262 units with and without terminator, BMP-only or with surrogate pairs / lone surrogates, valid runs whose first on-disk slot got another order byte (deleted mark, 0x05, index off by one ...), runs numbered 21..31 with padding-only upper slots, garbage long-name slots incl. attr 0x1F/0x2F/0x3F, arbitrary short slots, deleted, labels, end markers); oracle = iteration and every accessor + Debug terminate without panic within a device-call budget, names <= 255 units, and the listing (entries, short names, long names) equals refdec's backwards run parser under at least one reading of the undefined bits; block C2 = the order patterns of 1..2 slots and a soup sample again under a logger that accepts every level; block D = the order patterns of 1..3 slots and the slot soup through the build with the fixed long-name buffer, listing compared with the default build's (no crash, same entries); non-trivial = region with a long-name slot whose run is broken; distinct by hash of the region";
     let mut rep = Report::new("C17", tier, seed, "exploration", rule);
     rep.assume("undefined bits (attr bits 4-5 of long-name slots, order-byte bits 5 and 7) may be read either way; a run whose order/checksum are valid but whose NUL/0xFFFF layout is malformed may be returned or dropped");
     rep.assume("blocks A-C drive the default (alloc) build in-process against the independent parser; block D feeds the same families to the fixed-buffer build and the default build through featdrv and compares their listings");
@@ -660,6 +667,31 @@ pub fn run(tier: Tier, seed: u64) -> i32 {
     if !rep.failed() {
         let n = tier.pick(500_000u32, 5_000_000u32);
         rep.add(run::run_random("random_slot_soup", seed, n, "dirslots", || run::boxed(soup_strategy()), |c: &DirCase| eval(b, c)));
+    }
+    // block C2: the same families in a process whose logger accepts every level (the default features compile every log
+    // statement in; their arguments are evaluated only then)
+    if !rep.failed() {
+        crate::session::set_logging(true);
+        let per_slot = ORDERS.len() as u64 * 2;
+        for n in 1..=2usize {
+            if rep.failed() {
+                break;
+            }
+            let total = per_slot.pow(n as u32) * 2 * 6;
+            let mut a = run::run_indexed(&format!("lfn_run_patterns_{}_slots_with_a_trace_level_logger", n), total, |i, blk| {
+                let c = pattern_case(n, i, i % 2 == 1);
+                let out = eval(b, &c);
+                blk.record(&out, || serde_json::to_value(&c).unwrap());
+                out.violation.map(|m| fail(&c, format!("(logger at trace level) {}", m)))
+            });
+            a.exhaustive = true;
+            rep.add(a);
+        }
+        if !rep.failed() {
+            let n = tier.pick(100_000u32, 1_000_000u32);
+            rep.add(run::run_random("random_slot_soup_with_a_trace_level_logger", seed ^ 0x10C, n, "dirslots", || run::boxed(soup_strategy()), |c: &DirCase| eval(b, c)));
+        }
+        crate::session::set_logging(false);
     }
     // block D: the fixed-buffer build (no alloc feature) on the same families, as a differential against the default build
     if !rep.failed() {
